@@ -452,7 +452,13 @@ func (gen *generator) irFuncDecl(new *ir.Func, old *ast.FuncDecl) error {
 	}
 	new.Metadata = md
 	// Function header.
-	return gen.irFuncHeader(new, old.Header())
+	if err := gen.irFuncHeader(new, old.Header()); err != nil {
+		return errors.WithStack(err)
+	}
+	// Assign the IDs of unnamed parameters now, as is done for function
+	// definitions: the first print of a parsed module then has nothing left to
+	// assign (and so writes nothing that a concurrent reader could observe).
+	return errors.WithStack(new.AssignIDs())
 }
 
 // --- [ Function definitions ] ------------------------------------------------
